@@ -4,6 +4,8 @@
 //!   {"id":.., "mode":"tree",   "root": <beh>, "tree": <coll>, "ops":[..]}          type-erased trees (Box<dyn ..> at every node)
 //!   {"id":.., "mode":"static", "root":"rec"|"reg", "shape":"<name>", "behs":[<beh>..], "ops":[..]}   statically typed stacks
 //!   {"id":.., "mode":"macro",  "shape":"<name>", "behs":[..]}   (fresh process per case) real tracing macros on a Registry
+//!   {"id":.., "mode":"conc",   "root":.., "shape":"<name>", "behs":[..], "ops":[..], "bound_ms":N}   thread B runs the ops while thread A
+//!                                                  is parked inside `Handle::modify` of the shape's reload wrapper (baselines: nobody is)
 //! stdout: {"id":.., "build":[e..], "reg":[e..], "ops":[{"log":[e..],"res":r}..], "panic":null|"msg"}   e = [leaf, method, cs, id, id2]
 //!
 //! Leaves answer queries from their <beh> = {"int":[0|1|2 per callsite], "en":[bool..], "ev":[bool..], "hint":null|0..5,
@@ -389,6 +391,15 @@ fn drive<C: Collect + Send + Sync + 'static>(env: &Env, stack: C, ops: &[Value])
     // that traffic belongs to the callsite registry (C01/C04), not to this property.
     let reg: Vec<Entry> = env.take().into_iter().filter(|e| e.m != "max_level_hint" && e.m != "register_callsite").collect();
     let mut outs = Vec::new();
+    tracing_core::dispatch::with_default(&d, || outs = run_ops::<C>(env, &d, ops, false));
+    json!({"build": ent(&build), "reg": ent(&reg), "ops": outs})
+}
+
+/// The ops, one after the other, on the calling thread; the callback log is cut after each op.
+/// `quiet_registry_traffic`: drop `max_level_hint` / `register_callsite` entries (in the concurrency leg another thread's
+/// `Handle::modify` ends with `rebuild_interest_cache`, which asks every dispatcher for its hint at an arbitrary moment).
+fn run_ops<C: Collect + Send + Sync + 'static>(env: &Env, d: &Dispatch, ops: &[Value], quiet_registry_traffic: bool) -> Vec<Value> {
+    let mut outs = Vec::new();
     let ids: std::cell::RefCell<Vec<u64>> = std::cell::RefCell::new(Vec::new());
     let real = |k: u64| -> span::Id {
         match ids.borrow().get((k as usize).wrapping_sub(1)) {
@@ -396,67 +407,168 @@ fn drive<C: Collect + Send + Sync + 'static>(env: &Env, stack: C, ops: &[Value])
             _ => span::Id::from_u64(k.max(1)),
         }
     };
-    tracing_core::dispatch::with_default(&d, || {
-        for op in ops {
-            let name = op[0].as_str().unwrap_or("");
-            let n1 = op[1].as_u64().unwrap_or(0);
-            let n2 = op[2].as_u64().unwrap_or(0);
-            let meta: &'static Metadata<'static> = METAS[(n1 as usize) % 4];
-            let vs = meta.fields().value_set(&[]);
-            let res = match name {
-                "rc" => json!(["int", interest_code(&d.register_callsite(meta))]),
-                "en" => json!(["bool", d.enabled(meta)]),
-                "hint" => match d.downcast_ref::<C>() {
-                    Some(c) => json!(["hint", c.max_level_hint().map(rank_of_filter)]),
-                    None => json!(["nodowncast"]),
-                },
-                "new" => {
-                    let id = d.new_span(&span::Attributes::new_root(meta, &vs));
-                    ids.borrow_mut().push(id.into_u64());
-                    json!(["id", canon(&ids.borrow(), id.into_u64())])
-                }
-                "rec" => {
-                    d.record(&real(n1), &span::Record::new(&vs));
-                    json!(["unit"])
-                }
-                "ff" => {
-                    d.record_follows_from(&real(n1), &real(n2));
-                    json!(["unit"])
-                }
-                "ev" => {
-                    d.event(&Event::new(meta, &vs));
-                    json!(["unit"])
-                }
-                "enter" => {
-                    d.enter(&real(n1));
-                    json!(["unit"])
-                }
-                "exit" => {
-                    d.exit(&real(n1));
-                    json!(["unit"])
-                }
-                "clone" => {
-                    let id = d.clone_span(&real(n1));
-                    json!(["id", canon(&ids.borrow(), id.into_u64())])
-                }
-                "close" => json!(["bool", d.try_close(real(n1))]),
-                "drop" => {
-                    #[allow(deprecated)]
-                    d.drop_span(real(n1));
-                    json!(["unit"])
-                }
-                "cur" => {
-                    let _ = d.current_span();
-                    json!(["unit"])
-                }
-                _ => json!(["badop"]),
-            };
-            let mut es = env.take();
-            canon_entries(&ids.borrow(), &mut es);
-            outs.push(json!({"log": ent(&es), "res": res}));
+    for op in ops {
+        let name = op[0].as_str().unwrap_or("");
+        let n1 = op[1].as_u64().unwrap_or(0);
+        let n2 = op[2].as_u64().unwrap_or(0);
+        let meta: &'static Metadata<'static> = METAS[(n1 as usize) % 4];
+        let vs = meta.fields().value_set(&[]);
+        let res = match name {
+            "rc" => json!(["int", interest_code(&d.register_callsite(meta))]),
+            "en" => json!(["bool", d.enabled(meta)]),
+            "hint" => match d.downcast_ref::<C>() {
+                Some(c) => json!(["hint", c.max_level_hint().map(rank_of_filter)]),
+                None => json!(["nodowncast"]),
+            },
+            "new" => {
+                let id = d.new_span(&span::Attributes::new_root(meta, &vs));
+                ids.borrow_mut().push(id.into_u64());
+                json!(["id", canon(&ids.borrow(), id.into_u64())])
+            }
+            "rec" => {
+                d.record(&real(n1), &span::Record::new(&vs));
+                json!(["unit"])
+            }
+            "ff" => {
+                d.record_follows_from(&real(n1), &real(n2));
+                json!(["unit"])
+            }
+            "ev" => {
+                d.event(&Event::new(meta, &vs));
+                json!(["unit"])
+            }
+            "enter" => {
+                d.enter(&real(n1));
+                json!(["unit"])
+            }
+            "exit" => {
+                d.exit(&real(n1));
+                json!(["unit"])
+            }
+            "clone" => {
+                let id = d.clone_span(&real(n1));
+                json!(["id", canon(&ids.borrow(), id.into_u64())])
+            }
+            "close" => json!(["bool", d.try_close(real(n1))]),
+            "drop" => {
+                #[allow(deprecated)]
+                d.drop_span(real(n1));
+                json!(["unit"])
+            }
+            "cur" => {
+                let _ = d.current_span();
+                json!(["unit"])
+            }
+            _ => json!(["badop"]),
+        };
+        let mut es = env.take();
+        if quiet_registry_traffic {
+            es.retain(|e| e.m != "max_level_hint" && e.m != "register_callsite");
         }
+        canon_entries(&ids.borrow(), &mut es);
+        outs.push(json!({"log": ent(&es), "res": res}));
+    }
+    outs
+}
+
+// ------------------------------------------------------------------------------------------------ the reload wrapper while another thread modifies
+
+/// What thread A does: call `Handle::modify` (or `reload`) with a closure that reports "inside" and then parks until released.
+type Hold = Box<dyn FnOnce(std::sync::mpsc::Sender<()>, std::sync::mpsc::Receiver<()>) + Send>;
+
+/// Thread A enters `handle.modify(|_| { signal; wait for release })`; only then thread B starts the workload on the same
+/// Dispatch.  The main thread waits (bounded) for B to finish: with the blocking read lock B cannot finish while A is
+/// inside, so the wait always times out and A is then released; whatever happens, B is joined and its complete per-op
+/// callback log is returned.  No outcome is decided by the wait: the verdict is the comparison of B's log with the log of
+/// the same workload on the same stack without the reload wrapper (`hold = None`).
+fn drive_conc<C: Collect + Send + Sync + 'static>(env: &Env, stack: C, hold: Option<Hold>, ops: &[Value], bound_ms: u64) -> Value {
+    use std::sync::mpsc::channel;
+    let build = env.take();
+    let d = Dispatch::new(stack);
+    let _ = env.take();
+    let (entered_tx, entered_rx) = channel::<()>();
+    let (release_tx, release_rx) = channel::<()>();
+    let held = hold.is_some();
+    let a = hold.map(|h| std::thread::spawn(move || h(entered_tx, release_rx)));
+    if held {
+        // A is inside the closure (write lock held) once this returns
+        let _ = entered_rx.recv_timeout(std::time::Duration::from_secs(20));
+    }
+    let (done_tx, done_rx) = channel::<()>();
+    let mut outs = Vec::new();
+    let mut done_while_held = false;
+    let mut logged_while_held = 0usize;
+    std::thread::scope(|sc| {
+        let d2 = d.clone();
+        let b = sc.spawn(move || {
+            let r = tracing_core::dispatch::with_default(&d2, || run_ops::<C>(env, &d2, ops, true));
+            let _ = done_tx.send(());
+            r
+        });
+        if held {
+            done_while_held = done_rx.recv_timeout(std::time::Duration::from_millis(bound_ms)).is_ok();
+            logged_while_held = env.log.lock().unwrap_or_else(|e| e.into_inner()).len();
+            let _ = release_tx.send(());
+        }
+        outs = b.join().unwrap_or_default();
     });
-    json!({"build": ent(&build), "reg": ent(&reg), "ops": outs})
+    if let Some(a) = a {
+        let _ = a.join();
+    }
+    let _ = env.take();
+    json!({"build": ent(&build), "reg": [], "ops": outs, "held": held, "b_finished_while_held": done_while_held,
+           "entries_pending_while_held": logged_while_held})
+}
+
+fn hold_modify<T: Send + Sync + 'static>(h: reload::Handle<T>) -> Hold {
+    Box::new(move |entered, release| {
+        let _ = h.modify(|_| {
+            let _ = entered.send(());
+            let _ = release.recv_timeout(std::time::Duration::from_secs(30));
+        });
+    })
+}
+
+fn conc_any<R, MK>(name: &str, env: &Env, ops: &[Value], mk: MK, behs: &[Arc<Beh>], bound_ms: u64) -> Option<Value>
+where
+    R: Collect + Send + Sync + 'static,
+    MK: Fn() -> R,
+{
+    let l = |i: u64| env.layer(i, &behs[(i as usize).min(behs.len() - 1)]);
+    let f = |i: u64| env.filter(i, &behs[(i as usize).min(behs.len() - 1)]);
+    Some(match name {
+        // baselines: the same stacks without the reload wrapper, nobody modifying
+        "p1" => drive_conc(env, mk().with(l(1)), None, ops, bound_ms),
+        "p3" => drive_conc(env, mk().with(l(1)).with(l(2)).with(l(3)), None, ops, bound_ms),
+        "fp" => drive_conc(env, mk().with(Probe(f(1))), None, ops, bound_ms),
+        "fp3" => drive_conc(env, mk().with(l(2)).with(Probe(f(1))).with(l(3)), None, ops, bound_ms),
+        // the wrapped layer alone / between two neighbours / nested in other wrappers; a reloadable filter
+        "reload" => {
+            let (s, h) = reload::Subscriber::new(l(1));
+            drive_conc(env, mk().with(s), Some(hold_modify(h)), ops, bound_ms)
+        }
+        "mid_reload" => {
+            let (s, h) = reload::Subscriber::new(l(2));
+            drive_conc(env, mk().with(l(1)).with(s).with(l(3)), Some(hold_modify(h)), ops, bound_ms)
+        }
+        "mid_box_reload" => {
+            let (s, h) = reload::Subscriber::new(l(2));
+            drive_conc(env, mk().with(l(1)).with(Box::new(Some(s))).with(l(3)), Some(hold_modify(h)), ops, bound_ms)
+        }
+        "mid_reload_box" => {
+            let (s, h) = reload::Subscriber::new(Box::new(l(2)));
+            drive_conc(env, mk().with(l(1)).with(s).with(l(3)), Some(hold_modify(h)), ops, bound_ms)
+        }
+        "fp_reload" => {
+            let (s, h) = reload::Subscriber::new(f(1));
+            drive_conc(env, mk().with(Probe(s)), Some(hold_modify(h)), ops, bound_ms)
+        }
+        "fp3_reload" => {
+            let (s, h) = reload::Subscriber::new(f(1));
+            drive_conc(env, mk().with(l(2)).with(Probe(s)).with(l(3)), Some(hold_modify(h)), ops, bound_ms)
+        }
+        _ => return None,
+    })
 }
 
 // ------------------------------------------------------------------------------------------------ type-erased trees
@@ -793,6 +905,17 @@ fn run_line(line: &str) -> Value {
                 }
             }
             "macro" => macro_case(case["shape"].as_str().unwrap_or(""), &env, &behs),
+            "conc" => {
+                let name = case["shape"].as_str().unwrap_or("");
+                let bound = case["bound_ms"].as_u64().unwrap_or(300);
+                if case["root"].as_str() == Some("reg") {
+                    conc_any(name, &env, &ops, Registry::default, &behs, bound)
+                } else {
+                    let b0 = behs[0].clone();
+                    let e2 = &env;
+                    conc_any(name, &env, &ops, move || e2.root(&b0), &behs, bound)
+                }
+            }
             _ => None,
         }
     }));
